@@ -169,10 +169,20 @@ class BlockParser:
 		elif text[index] == brackets[1]:
 			return Kinds.End, index, -1
 
+		# XXX ブロックの直後など、区切り文字の前に空白がある場合('f(x) , a')は空白を読み飛ばす(空の要素として扱わない)
+		probe = index
+		while probe < len(text) and text[probe] in ' \n\t':
+			probe += 1
+
+		if probe > index and probe < len(text) and text[probe] in delimiter:
+			index = probe
+
 		if text[index] in delimiter:
 			index += 1
 
 		entry_begin = index
+		# XXX 空白の直前まで読み取った要素の開始位置。要素と区切り文字の間に空白がある場合('a : b')に要素を失わないために保持
+		before_blank_begin = -1
 		end_tokens_of_element = f'{brackets}{delimiter}'
 		other_tokens = ''.join([pair for pair in cls._all_pair if pair != brackets])
 		while index < len(text):
@@ -183,9 +193,15 @@ class BlockParser:
 			if text[index] == brackets[0]:
 				return Kinds.Block, entry_begin, index
 			elif text[index] in end_tokens_of_element:
+				if entry_begin == index and before_blank_begin != -1:
+					return Kinds.Element, before_blank_begin, index
+
 				return Kinds.Element, entry_begin, index
 
 			if text[index] in ' \n\t':
+				if entry_begin < index:
+					before_blank_begin = entry_begin
+
 				entry_begin = index + 1
 
 			index += 1
